@@ -61,7 +61,8 @@ T_RE = re.compile(r'zt(\d+)x')
 K_PLAIN, K_SECTION, K_FOOTNOTE, K_REF, K_PAGEREF, K_ANCHOR, K_CITE, K_BIBITEM, K_CAPTION, K_INDEXPAGE, K_HIDDEN, K_ITEM, K_DOCENV, K_ROOT = range(14)
 SECTION_NAMES = ('part', 'chapter', 'section', 'subsection', 'subsubsection', 'paragraph', 'subparagraph', 'subsubparagraph', 'bibliography')
 
-RENDERERS = {'html5': ('HTML5', 'default'), 'html5min': ('HTML5', 'minimal'), 'xhtml': ('XHTML', 'default')}
+RENDERERS = {'html5': ('HTML5', 'default'), 'html5min': ('HTML5', 'minimal'), 'html5frag': ('HTML5', 'fragment'), 'xhtml': ('XHTML', 'default')}
+NO_NAVIGATION = ('html5min', 'html5frag')       # themes whose layout prints neither navigation links nor a table of contents
 
 
 # ------------------------------------------------------------------------------------------------------------------
@@ -118,7 +119,7 @@ def gen_inlines(rng, cnt, labels, keys, depth=0, allow_fn=True, n=None, feats=()
                 out.append(['idx', cnt.k])
             else:
                 # initial letter of the sort key, and (sometimes) a display form sort@display whose initial differs
-                ini = rng.choice('zzzzab')
+                ini = rng.choice('zzzzab__')
                 disp = rng.choice('qzab') if rng.random() < 0.3 else None
                 out.append(['idx', cnt.k, ini, disp])
         else:
@@ -142,12 +143,21 @@ def clash_pool(template):
     return [pool, ['sect0001', 'sect0002', 'sect1', 'sect2', 'node001', 'sect01', 's01']]
 
 
-def gen_doc(rng, size=None, feats=None, label_style='plain', clash=None, ladder=False):
+def future_name(template):
+    """a label that (as $id) equals the numbered fall-back name the generator will issue SECOND: the unit that carries it takes the name
+    first, so the fall-back candidate is rejected as taken once and $num must move on"""
+    m = re.search(r'\[\s*\$\{?id\}?(\.html)?\s*,\s*([a-z]+)\$num(?:\((\d+)\))?\s*\]', template)
+    if not m:
+        return None
+    return m.group(2) + ('%%0%dd' % int(m.group(3) or 1)) % 2
+
+
+def gen_doc(rng, size=None, feats=None, label_style='plain', clash=None, ladder=False, future=None):
     """a random document; labels are planned first so that references can point forwards and backwards"""
     cls = rng.choice(['article', 'article', 'book'])
     cmds = SEC_CMDS[cls]
     size = size if size is not None else rng.randint(2, 9)
-    feats = feats if feats is not None else tuple(f for f in ('fn', 'ref', 'cite', 'idx', 'list', 'fig', 'ph') if rng.random() < 0.75)
+    feats = feats if feats is not None else tuple(f for f in ('fn', 'ref', 'cite', 'idx', 'list', 'fig', 'ph', 'emp') if rng.random() < 0.75)
     cnt = Counter()
     # plan sections: a walk over depths (never skipping more than one level down from the top used so far is NOT required by plasTeX)
     top = rng.choice([0, 1, 1, 1]) if cls == 'article' else rng.choice([0, 1, 1])
@@ -180,6 +190,9 @@ def gen_doc(rng, size=None, feats=None, label_style='plain', clash=None, ladder=
             return rng.choice(['%s:%d', '%s.%d', 'a %s %d', '%s_%d-x', '%s/%d', '%s,%d', '%s;%d', '%s(%d)', '%s|%d', '%s<%d>']) % (prefix, cnt.l)
         return '%s%d' % (prefix, cnt.l)
     sec_labels = [mklabel('s') if rng.random() < (0.8 if clash else 0.6) else None for _ in range(nsec)]
+    if future:
+        # the first unit carries the future name, the units after it have no label: they take the numbered names
+        sec_labels = [future] + [None] * (nsec - 1)
     nbib = rng.randint(1, 3) if 'cite' in feats else 0
     keys = ['bk%d' % (i + 1) for i in range(nbib)]
     labels = [l for l in sec_labels if l]
@@ -209,6 +222,8 @@ def gen_doc(rng, size=None, feats=None, label_style='plain', clash=None, ladder=
                     its.append([lab, gen_inlines(rng, cnt, all_labels, keys, feats=feats, n=rng.randint(1, 2))])
                 kind = 'enumerate' if any(i[0] for i in its) else rng.choice(['itemize', 'enumerate'])
                 out.append(['list', kind, its])
+            elif r < 0.68 and 'emp' in feats:
+                out.append(['empties', rng.randint(2, 6)])
             elif r < 0.9 and 'fig' in feats:
                 lab = fig_labels.pop() if (fig_labels and rng.random() < 0.7) else None
                 out.append(['fig', gen_inlines(rng, cnt, all_labels, keys, allow_fn=False, feats=feats, n=1),
@@ -228,7 +243,8 @@ def gen_doc(rng, size=None, feats=None, label_style='plain', clash=None, ladder=
         if rng.random() < 0.5:
             items.append(['sec', cmds[top], 0, [cnt.t + 1], None])
             cnt.t += 1
-        items.append(['bib', [[k, gen_inlines(rng, cnt, [], [], allow_fn=False, feats=(), n=rng.randint(1, 2))] for k in keys]])
+        items.append(['bib', [[k, gen_inlines(rng, cnt, [], [], allow_fn=False, feats=(), n=rng.randint(1, 2)),
+                               ('Lb%s' % k[2:]) if rng.random() < 0.4 else None] for k in keys]])
     if 'idx' in feats and rng.random() < 0.8:
         if rng.random() < 0.4:
             # the index as makeindex writes it into the .ind file
@@ -257,6 +273,9 @@ def pr_inlines(ins):
         elif k == 'idx':
             ini = x[2] if len(x) > 2 else 'z'
             disp = x[3] if len(x) > 3 else None
+            if ini == '_':      # \index{__init__@\texttt{\_\_init\_\_}}: the sort key starts with an underscore
+                out.append('\\index{_k%dx@\\texttt{\\_k%dx}}' % (x[1], x[1]))
+                continue
             out.append('\\index{%sk%dx%s}' % (ini, x[1], '@%sd%dx' % (disp, x[1]) if disp else ''))
         else:
             raise ValueError(x)
@@ -284,6 +303,11 @@ def source(case):
         elif k == 'rawpar':
             out.append(it[1])
             out.append('')
+        elif k == 'empties':
+            # paragraphs that render to nothing (the post-processing of the renderers removes the empty <p></p>)
+            for i in range(it[1]):
+                out.append(['\\vspace{1cm}', '\\bigskip', '\\smallskip'][i % 3])
+                out.append('')
         elif k == 'quote':
             out.append('\\begin{quote}%s\\end{quote}' % pr_inlines(it[1]))
         elif k == 'list':
@@ -296,8 +320,9 @@ def source(case):
                                                                      '\\label{%s}' % it[3] if it[3] else ''))
         elif k == 'bib':
             out.append('\\begin{thebibliography}{9}')
-            for key, ins in it[1]:
-                out.append('\\bibitem{%s} %s' % (key, pr_inlines(ins)))
+            for b in it[1]:
+                key, ins, opt = b[0], b[1], (b[2] if len(b) > 2 else None)
+                out.append('\\bibitem%s{%s} %s' % ('[%s]' % opt if opt else '', key, pr_inlines(ins)))
             out.append('\\end{thebibliography}')
         elif k == 'printindex':
             out.append('\\printindex')
@@ -336,7 +361,7 @@ BAD_CHARS = [None, None, None, ('zt', '-'), ('sx', '_'), (': #$%^&*!~`"\'=?/{}[]
 
 
 def gen_cfg(rng, renderer=None, split=None, template=None):
-    cfg = {'renderer': renderer or rng.choice(['html5', 'html5', 'html5min', 'xhtml']),
+    cfg = {'renderer': renderer or rng.choice(['html5', 'html5', 'html5min', 'xhtml', 'html5frag']),
            'split': split if split is not None else rng.choice([-10, -2, -1, 0, 1, 1, 2, 2, 2, 3, 3, 4, 5, 6]),
            'filename': template or rng.choice(TEMPLATES),
            'bad': rng.choice(BAD_CHARS),
@@ -386,7 +411,7 @@ def shared_cases(seed, tier, boost=1):
     # 1. exhaustive over split levels on small documents, default template, all three renderers
     for i in range(5 if quick else 30):
         doc = gen_doc(rng, size=rng.randint(2, 5), ladder=True, label_style='punct' if i % 2 else 'plain')
-        rname = ['html5', 'xhtml', 'html5min'][i % 3]
+        rname = ['html5', 'xhtml', 'html5min', 'html5frag'][i % 4]
         for split in range(-10, 7):
             cfg = gen_cfg(rng, renderer=rname, split=split, template=TEMPLATES[0])
             cfg.update(bad=None, base='', crumbs=False, localtoc=False)
@@ -405,7 +430,12 @@ def shared_cases(seed, tier, boost=1):
                       template=rng.choice([TEMPLATES[0], TEMPLATES[0], TEMPLATES[2], TEMPLATES[5], TEMPLATES[6], TEMPLATES[8], TEMPLATES[10], TEMPLATES[11]]))
         if i % 3:
             cfg['bad'] = None
-        doc = gen_doc(rng, size=rng.randint(2, 6), clash=clash_pool(cfg['filename']))
+        fut = future_name(cfg['filename']) if i % 3 == 0 else None
+        if fut:
+            cfg['split'] = rng.choice([2, 3, 4])
+            doc = gen_doc(rng, size=rng.randint(3, 6), future=fut)
+        else:
+            doc = gen_doc(rng, size=rng.randint(2, 6), clash=clash_pool(cfg['filename']))
         out.append(('name-clash', {'doc': doc, 'cfg': cfg}))
     # 3c. twin sections (identical title and content)
     for i in range((12 if quick else 120) * boost):
@@ -702,6 +732,11 @@ def walk(document, renderer):
         ref = None
         if hasattr(node, 'ref'):
             ref = text_of(node.ref)
+        if k == K_BIBITEM:
+            try:
+                ref = text_of(node.bibcite)      # what \cite prints for the item: its optional label, else its number
+            except Exception:   # noqa
+                pass
         targets = []
         resolved = 1
         if k in (K_REF, K_PAGEREF):
